@@ -9,13 +9,13 @@
        bgcmdsub { : "$(job)"; } &               (the job's operation runs in a command substitution inside a background job)
 
    The shell state is a set of CELLS, one per class of state that looks shared at the shell level:
-   a scalar variable, the storage of an array, the function table, the alias table, the option
+   a scalar variable, the storage of an indexed array, the storage of an associative array, the function table, the alias table, the option
    table, the working directory, the positional parameters, standard output.  The contract says
    for every class what a spawned child gets:
 
        own      its own copy, made by the parent before the child starts (var, func, alias, opt, cwd, params)
        cow      the very same storage, read-only: whoever wants to write while it is shared must first
-                take a private copy (array storage -- the C27 discipline, now with real concurrency)
+                take a private copy (storage of indexed and associative arrays -- the C27 discipline, now with real concurrency)
        safe     the same object, whose own implementation must tolerate concurrent use (stdout:
                 interp documents that the io.Writer given to StdIO must be safe for concurrent use)
        sync     the same cell, accesses ordered by a blocking operation (a job's exit status: written
@@ -29,9 +29,9 @@
    `wait id` is enabled once that job is done and yields the status that job exited with
    (WaitCorrect), in every completion order; plain `wait` needs all jobs done and yields 0.
 
-   With Buggy = TRUE the write `a+=x` ("wip") on shared array storage is done in place, which is what
-   interp.Runner.assignVal is known to do: NoRace must then fail (self-test, ShConc.buggy.cfg), and the
-   set of shapes on which it fails is the trigger class of the known finding Dev_AppendInPlaceRace.
+   With Buggy = TRUE the write `a+=x` ("wip") on shared array storage is done in place (what
+   interp.Runner.assignVal did before commit 6880309): NoRace must then fail (self-test, ShConc.buggy.cfg),
+   and it fails exactly on the shapes of the predicate Trigger (second self-test of the model).
 
    Every terminal state is one (shape, schedule): hist is the total order of the events of that
    interleaving.  It is emitted as a VEC; the engine renders the shape as a script, turns hist into a
@@ -62,16 +62,17 @@ Op(txt, cls, mode) == [txt |-> txt, cls |-> cls, mode |-> mode]
 Nop == Op(":", "none", "r")
 Ops == { Op(": \"$v\"", "var", "r"),          Op("v=x", "var", "w"),
          Op(": \"${a[@]}\"", "arr", "r"),     Op("a[1]=x", "arr", "w"),   Op("a+=x", "arr", "wip"),
+         Op(": \"${m[k]}\"", "map", "r"),     Op("m[k]=x", "map", "w"),
          Op("f", "func", "r"),                Op("f() { :; }", "func", "w"),
          Op("alias q >/dev/null", "alias", "r"), Op("alias q=z", "alias", "w"),
          Op("[ -o noglob ]", "opt", "r"),     Op("set -f", "opt", "w"),
          Op(": \"$PWD\"", "cwd", "r"),        Op("cd d1", "cwd", "w"),
          Op(": \"$@\"", "params", "r"),       Op("shift", "params", "w"),
          Op("echo o", "out", "w") }
-HotOps == {o \in Ops : o.cls \in {"var", "arr"}}
-Classes == {"var", "arr", "func", "alias", "opt", "cwd", "params", "out"}
+HotOps == {o \in Ops : o.cls \in {"var", "arr", "map"}}
+Classes == {"var", "arr", "map", "func", "alias", "opt", "cwd", "params", "out"}
 Discipline == [var |-> "own", func |-> "own", alias |-> "own", opt |-> "own", cwd |-> "own",
-               params |-> "own", arr |-> "cow", out |-> "safe"]
+               params |-> "own", arr |-> "cow", map |-> "cow", out |-> "safe"]
 
 ShareKinds == {"bg", "pipe", "procin", "procout", "api", "bgcmdsub"}
 HasId(k) == k \in {"bg", "procin", "procout", "bgcmdsub"}       \* `$!` / wait id (a pipeline stage and an API copy have none)
@@ -114,7 +115,7 @@ MainStep == IF mpc <= Len(Prog) THEN Prog[mpc] ELSE <<"end">>
 \* ---------------------------------------------------------------- cells
 \* A cell instance is a number.  Main starts with instance i for the i-th class; a spawned child gets
 \* new numbers for the classes it owns and the parent's instance for the cow / safe classes.
-ClassSeq == <<"var", "arr", "func", "alias", "opt", "cwd", "params", "out">>
+ClassSeq == <<"var", "arr", "map", "func", "alias", "opt", "cwd", "params", "out">>
 NC == Len(ClassSeq)
 MainInst == [i \in 1..NC |-> i]
 ChildInst(parent, base) ==
@@ -221,7 +222,7 @@ OwnDisjoint == \A g, h \in 0..N : (g # h /\ Alive(g) /\ Alive(h)) =>
 Terminal == mpc > Len(Prog) /\ \A j \in 1..N : jpc[j] = "done"
 NoStuck == Terminal \/ ENABLED Step
 
-\* Trigger class of the known finding Dev_AppendInPlaceRace, as a predicate on the shape: two
+\* Trigger class of the Buggy self-test model, as a predicate on the shape: two
 \* goroutines that are not ordered by a wait both operate on the array and one of them is `a+=x`.
 \* With Buggy = TRUE a racing pair only ever shows up on such shapes (TriggerSound, checked by TLC),
 \* and every such shape has an interleaving with a racing pair (checked on the emitted vectors).
